@@ -198,14 +198,15 @@ class Compiler:
         self._emit(OpCode.STORE_NAME, self._add_name(name))
 
     def _compile_finalizer_with_pending_exception(self, finalizer: Node) -> None:
-        """Compile a finally block that runs while the pending exception is on the stack.
+        """Compile a finally block that runs while a pending exception (or the value
+        of a pending return) is on the stack.
 
-        A break/continue inside the block abandons the exception and has to pop it:
+        A break/continue inside the block abandons that value and has to pop it:
         the block is compiled inside a context that owns one stack slot. Its label
         cannot be written in source, so no break/continue ever targets it.
         """
         self.loop_stack.append(
-            LoopContext(label="<pending exception>", is_loop=False, stack_slots=1)
+            LoopContext(label="<pending completion>", is_loop=False, stack_slots=1)
         )
         self._compile_statement(finalizer)
         self.loop_stack.pop()
@@ -250,13 +251,16 @@ class Compiler:
         self.bytecode[pos + 1] = target & 0xFF  # Low byte
         self.bytecode[pos + 2] = (target >> 8) & 0xFF  # High byte
 
-    def _emit_pending_finally_blocks(self, target: Optional[LoopContext] = None) -> None:
+    def _emit_pending_finally_blocks(
+        self, target: Optional[LoopContext] = None, pending_value: bool = False
+    ) -> None:
         """Leave the try statements a break/continue/return jumps out of.
 
         For each of them (innermost first) the installed exception handler is
         removed and the finally block, if any, is inlined. Try statements that
         enclose the target loop are not left and stay untouched; a return
-        (target None) leaves all of them.
+        (target None) leaves all of them. pending_value says that the return
+        value waits on the stack while the finally blocks run.
         """
         target_index = self.loop_stack.index(target) if target is not None else -1
         saved = self.try_stack
@@ -269,7 +273,10 @@ class Compiler:
             if try_ctx.finalizer:
                 # The finally block runs outside its own try statement
                 self.try_stack = saved[:i]
-                self._compile_statement(try_ctx.finalizer)
+                if pending_value:
+                    self._compile_finalizer_with_pending_exception(try_ctx.finalizer)
+                else:
+                    self._compile_statement(try_ctx.finalizer)
         self.try_stack = saved
 
     def _add_constant(self, value: Any) -> int:
@@ -780,7 +787,7 @@ class Compiler:
             # The return value is computed first, then pending finally blocks run
             if node.argument:
                 self._compile_expression(node.argument)
-                self._emit_pending_finally_blocks()
+                self._emit_pending_finally_blocks(pending_value=True)
                 self._emit(OpCode.RETURN)
             else:
                 self._emit_pending_finally_blocks()
